@@ -8,6 +8,7 @@
 #include <crab/domains/graphs/sparse_graph.hpp>
 #include <crab/numbers/bignums.hpp>
 #include <crab/numbers/safeint.hpp>
+#include <crab/support/debug.hpp>
 
 namespace crab {
 namespace domains {
@@ -102,6 +103,10 @@ template <typename Number, typename Wt> struct NtoW {
 template <> struct NtoW<ikos::z_number, int64_t> {
   static int64_t convert(const ikos::z_number &n, bool &overflow) {
     overflow = false;
+    if (CRAB_VERIF_UNUSUAL("ntow")) {
+      overflow = true;
+      return 0;
+    }
     if (!n.fits_int64()) {
       overflow = true;
       return 0;
@@ -113,6 +118,10 @@ template <> struct NtoW<ikos::z_number, int64_t> {
 template <> struct NtoW<ikos::z_number, safe_i64> {
   static safe_i64 convert(const ikos::z_number &n, bool &overflow) {
     overflow = false;
+    if (CRAB_VERIF_UNUSUAL("ntow")) {
+      overflow = true;
+      return 0;
+    }
     if (!n.fits_int64()) {
       overflow = true;
       return 0;
